@@ -4,7 +4,7 @@ package shimagent
 //vsym:include shim/world.go
 //vsym:entry H07_shim
 //vsym:entry H07_upstream3
-//vsym:replay none
+//vsym:replay same-harness repeat=6
 //vsym:expect-cover C07.listed-valid C07.purged-expired-upstream C07.purged-expired-memory C07.orphan-dropped C07.empty-list-keeps C07.upstream-fault
 //vsym:bound H07_upstream3: no in-memory certificate, exactly three upstream identities (two certificates and a third certificate or plain key), symbolic windows and clock, both modes, List / Signers / Sign
 //vsym:bound H07_shim: pre-state under the representation invariant with 0..1 (thorough 0..2) in-memory certificates and 0..2 upstream identities (plain key of 2 possible keys, a certificate over either key, or the in-memory certificate itself also held upstream); every validity window and the clock symbolic; both modes; every map iteration order; the first (thorough: one of the first two) upstream call may fail; one operation from List / Signers / Sign
@@ -72,22 +72,21 @@ func h07Scenario(maxMem, maxUp, exactUp int) {
 		}
 		switch {
 		case kind < 2: // plain key 1 or 2
-			blob := []byte{'k', byte(kind + 1)}
-			if up.has(blob) {
+			if up.has(mwKeyBlob(kind + 1)) {
 				vAssume(false)
 			}
-			up.ids = append(up.ids, &mwIdent{format: mwKeyFormat, blob: blob, comment: "k"})
+			mwUpKey(up, kind+1, "k")
 		case kind == 2: // a certificate of its own
 			c := newCert("up")
 			upCerts = append(upCerts, c)
-			up.ids = append(up.ids, &mwIdent{format: mwCertFormat, blob: mwCertMarshal(c), comment: "c"})
+			mwUpCert(up, c, "c")
 		default: // the in-memory certificate is also held upstream
 			c := mem[kind-3]
 			if up.has(mwCertMarshal(c)) {
 				vAssume(false)
 			}
 			upCerts = append(upCerts, c)
-			up.ids = append(up.ids, &mwIdent{format: mwCertFormat, blob: mwCertMarshal(c), comment: "c"})
+			mwUpCert(up, c, "c")
 		}
 	}
 	nFault := 2
@@ -163,8 +162,7 @@ func h07Scenario(maxMem, maxUp, exactUp int) {
 	// what came back contains no certificate outside its window
 	check := func(k ssh.PublicKey) {
 		blob := k.Marshal()
-		if len(blob) == 2 && blob[0] == 'c' && int(blob[1]) < len(mwCerts) {
-			c := mwCerts[blob[1]]
+		if c := mwCertByBlob(blob); c != nil {
 			vAssert(!h07MustReject(c), "C07.no-listed-certificate-outside-its-window")
 			vCover(h07MustAccept(c), "C07.listed-valid")
 		}
